@@ -11,7 +11,7 @@ static _Atomic(size_t) bm[NF];
 static size_t blocked_tail = 0;     /* number of blocked top bits in the last field */
 typedef struct { int t; int nops; int purger; } brole_t;
 static brole_t broles[VF_MAXT];
-static const size_t counts[] = {1, 2, 3, 40, 64, 70, 130, 5, 33, 100};
+static const size_t counts[] = {1, 2, 3, 40, 64, 70, 130, 5, 33, 100, 20, 60};
 
 static void log_words(const char* ev) {
   vf_logf("{\"e\":\"%s\",\"words\":[", ev);
@@ -28,6 +28,7 @@ static void* bworker(void* arg) {
   brole_t* r = (brole_t*)arg;
   cur_t = r->t;
   vf_point();
+  size_t held_cnt[4]; mi_bitmap_index_t held_idx[4]; int nheld = 0;
   for (int i = 0; i < r->nops; i++) {
     size_t count = counts[vf_randn(sizeof(counts) / sizeof(counts[0]))];
     mi_bitmap_index_t idx = 0; bool ok;
@@ -44,15 +45,28 @@ static void* bworker(void* arg) {
       }
       continue;
     }
+    /* hold up to three claims at a time so that the bitmap fills up and claims reach (and fail at) the end of the last word */
+    if (nheld > 0 && (nheld >= 3 || vf_randn(3) == 0)) {
+      int j = (int)vf_randn((uint64_t)nheld);
+      size_t hc = held_cnt[j]; mi_bitmap_index_t hi = held_idx[j];
+      held_cnt[j] = held_cnt[nheld - 1]; held_idx[j] = held_idx[nheld - 1]; nheld--;
+      vf_logf("{\"e\":\"unclaim\",\"t\":%d,\"count\":%zu,\"idx\":%zu}", r->t, hc, (size_t)hi); vf_log_line_end();
+      vf_in_call = 1; bool all = _mi_bitmap_unclaim_across(bm, NF, hc, hi); vf_in_call = 0;
+      vf_logf("{\"e\":\"unclaimed\",\"t\":%d,\"all\":%s}", r->t, all ? "true" : "false"); vf_log_line_end();
+      vf_point();
+      continue;
+    }
     size_t start = vf_randn(NF);
     vf_in_call = 1; ok = _mi_bitmap_try_find_from_claim_across(bm, NF, start, count, &idx); vf_in_call = 0;
     vf_logf("{\"e\":\"claim\",\"t\":%d,\"kind\":\"find\",\"count\":%zu,\"ok\":%s,\"idx\":%zu}", r->t, count, ok ? "true" : "false", ok ? (size_t)idx : 0); vf_log_line_end();
-    if (ok) {
-      vf_point();
-      vf_logf("{\"e\":\"unclaim\",\"t\":%d,\"count\":%zu,\"idx\":%zu}", r->t, count, (size_t)idx); vf_log_line_end();
-      vf_in_call = 1; bool all = _mi_bitmap_unclaim_across(bm, NF, count, idx); vf_in_call = 0;
-      vf_logf("{\"e\":\"unclaimed\",\"t\":%d,\"all\":%s}", r->t, all ? "true" : "false"); vf_log_line_end();
-    }
+    if (ok) { held_cnt[nheld] = count; held_idx[nheld] = idx; nheld++; }
+    vf_point();
+  }
+  while (nheld > 0) {
+    nheld--;
+    vf_logf("{\"e\":\"unclaim\",\"t\":%d,\"count\":%zu,\"idx\":%zu}", r->t, held_cnt[nheld], (size_t)held_idx[nheld]); vf_log_line_end();
+    vf_in_call = 1; bool all = _mi_bitmap_unclaim_across(bm, NF, held_cnt[nheld], held_idx[nheld]); vf_in_call = 0;
+    vf_logf("{\"e\":\"unclaimed\",\"t\":%d,\"all\":%s}", r->t, all ? "true" : "false"); vf_log_line_end();
     vf_point();
   }
   return NULL;
@@ -69,7 +83,7 @@ static int run_one(const char* out, uint64_t seed) {
   if (blocked_tail > 0) atomic_store(&bm[NF - 1], ~(size_t)0 << (64 - blocked_tail));
   log_words("init");
   int nt = 2 + (int)vf_randn(3);
-  for (int k = 0; k < nt; k++) { broles[k + 1].t = k + 1; broles[k + 1].nops = 2 + (int)vf_randn(3); broles[k + 1].purger = (k == nt - 1 && vf_randn(2)); vf_spawn(bworker, &broles[k + 1]); }
+  for (int k = 0; k < nt; k++) { broles[k + 1].t = k + 1; broles[k + 1].nops = 4 + (int)vf_randn(6); broles[k + 1].purger = (k == nt - 1 && vf_randn(2)); vf_spawn(bworker, &broles[k + 1]); }
   vf_sched_go();
   vf_wait_all();
   log_words("final");
